@@ -15,6 +15,15 @@ inductive AxisArg
   | many (ks : List DimKey)    -- tuple / list of names or positions: collapsed into one axis first
   deriving Repr, Inhabited
 
+/-- name of the dimension designated by a name or a position (`_get_axes_info`) -/
+def keyName {α} (a : DimArray α) (k : DimKey) : Except Err String :=
+  match k with
+  | .name s => if a.dims.contains s then .ok s else .error .value
+  | .pos i =>
+    let n : Int := a.ndim
+    let j := if i < 0 then i + n else i
+    if j < 0 || j ≥ n then .error .index else .ok (a.dims.getD j.toNat "")
+
 /-- `_deal_with_axis(obj, axis)` : (possibly flattened object, axis position) -/
 def dealWithAxis {α} (a : DimArray α) (ax : AxisArg) : Except Err (DimArray α × Option Nat) :=
   match ax with
@@ -30,12 +39,7 @@ def dealWithAxis {α} (a : DimArray α) (ax : AxisArg) : Except Err (DimArray α
       let j := if i < 0 then i + n else i
       if j < 0 || j ≥ n then .error .index else pure (a, some j.toNat)   -- self.axes[idx] -> IndexError
   | .many ks => do
-    let names ← ks.mapM fun k => match k with
-      | .name s => if a.dims.contains s then (pure s : Except Err String) else .error .value
-      | .pos i =>
-        let n : Int := a.ndim
-        let j := if i < 0 then i + n else i
-        if j < 0 || j ≥ n then .error .index else pure (a.dims.getD j.toNat "")
+    let names ← ks.mapM (keyName a)
     let o ← flatten a names (some 0)
     pure (o, some 0)
 
